@@ -1,4 +1,4 @@
-import SimbodyProofs.C26_ops
+import SimbodyProofs.C26_world
 
 /-!
 # C26 — property theorems: `Array_` and the pointer wrappers have value semantics
@@ -193,6 +193,185 @@ theorem run_refines (mx : Nat) : ∀ (ops : List Op) (a : Arr) (L : Log) (vs : L
     · rw [hs.nothrow]; exact ih _ _ _ hs.rep hrest
     · rw [hs.2.2]; exact ih _ _ _ (by rw [hs.1]; exact h) hrest
 
+/-! ## several arrays -/
+
+/-- outcome of one world operation: disciplined, refines `wspec` (or threw and changed nothing), balanced -/
+structure WStepOK (mx : Nat) (w : World) (vss : List (List Elt)) (op : WOp) : Prop where
+  viol : (wstep mx w op).log.viol = w.log.viol
+  rep : ∃ vss', WRep (wstep mx w op) vss' ∧ ((wstep mx w op).thrown = false → vss' = wspec vss op) ∧
+    ((wstep mx w op).thrown = true → vss' = vss)
+  bal : (wstep mx w op).log.ctor + total w + w.log.dtor = (wstep mx w op).log.dtor + total (wstep mx w op) + w.log.ctor
+
+theorem WStepOK.of_eq {mx : Nat} {w : World} {vss : List (List Elt)} {op : WOp} (w' : World)
+    (e : wstep mx w op = w') (hv : w'.log.viol = w.log.viol)
+    (hrep : ∃ vss', WRep w' vss' ∧ (w'.thrown = false → vss' = wspec vss op) ∧ (w'.thrown = true → vss' = vss))
+    (hb : w'.log.ctor + total w + w.log.dtor = w'.log.dtor + total w' + w.log.ctor) : WStepOK mx w vss op := by
+  subst e; exact ⟨hv, hrep, hb⟩
+
+theorem wstep_ok (mx : Nat) (w : World) (vss : List (List Elt)) (op : WOp) (h : WRep w vss)
+    (hl : wlegal mx w op = true) (hr : wrefOK w op = true) : WStepOK mx w vss op := by
+  obtain ⟨arrs, L, t⟩ := w
+  have hlen : arrs.length = vss.length := h.1
+  cases op with
+  | on k op =>
+    have hk : k < arrs.length ∧ legal mx (arrs.getD k {}) op = true := by simpa [wlegal, World.get] using hl
+    have hr' : refOK (arrs.getD k {}) op = true := hr
+    have hrep : Rep (arrs.getD k {}) (vss.getD k []) := h.2 k
+    have hsum := sum_set arrs k (step mx (arrs.getD k {}) L op).arr hk.1
+    rcases step_ok mx (arrs.getD k {}) L (vss.getD k []) op hrep hk.2 hr' with hs | hs
+    · refine ⟨hs.viol, ⟨vss.set k (spec (vss.getD k []) op), wrep_set k _ _ h hs.rep, fun _ => rfl, ?_⟩, ?_⟩
+      · intro ht
+        have : (step mx (arrs.getD k {}) L op).thrown = true := ht
+        rw [hs.nothrow] at this; cases this
+      · have := hs.bal
+        show (step mx (arrs.getD k {}) L op).log.ctor + (arrs.map Arr.size).sum + L.dtor
+          = (step mx (arrs.getD k {}) L op).log.dtor + ((arrs.set k (step mx (arrs.getD k {}) L op).arr).map Arr.size).sum + L.ctor
+        omega
+    · obtain ⟨u1, u2, u3⟩ := hs
+      refine ⟨by show (step mx (arrs.getD k {}) L op).log.viol = _; rw [u2], ⟨vss, ?_, ?_, fun _ => rfl⟩, ?_⟩
+      · have := wrep_set (L' := (step mx (arrs.getD k {}) L op).log) (t' := (step mx (arrs.getD k {}) L op).thrown)
+          k (step mx (arrs.getD k {}) L op).arr (vss.getD k []) h (by rw [u1]; exact hrep)
+        rw [set_getD_self] at this; exact this
+      · intro ht
+        have : (step mx (arrs.getD k {}) L op).thrown = false := ht
+        rw [u3] at this; cases this
+      · show (step mx (arrs.getD k {}) L op).log.ctor + (arrs.map Arr.size).sum + L.dtor
+          = (step mx (arrs.getD k {}) L op).log.dtor + ((arrs.set k (step mx (arrs.getD k {}) L op).arr).map Arr.size).sum + L.ctor
+        rw [u1] at hsum ⊢; rw [u2]; omega
+  | swap i j =>
+    have hij : i < arrs.length ∧ j < arrs.length := by simpa [wlegal] using hl
+    have s1 := sum_set arrs i (arrs.getD j {}) hij.1
+    have s2 := sum_set (arrs.set i (arrs.getD j {})) j (arrs.getD i {}) (by simp [hij.2])
+    rw [getD_set] at s2
+    refine ⟨rfl, ⟨_, wrep_set (L' := L) (t' := false) j _ _ (wrep_set (L' := L) (t' := t) i _ _ h (h.2 j)) (h.2 i), fun _ => rfl, fun ht => by cases ht⟩, ?_⟩
+    show L.ctor + (arrs.map Arr.size).sum + L.dtor = L.dtor + (((arrs.set i (arrs.getD j {})).set j (arrs.getD i {})).map Arr.size).sum + L.ctor
+    by_cases e : j = i ∧ i < arrs.length
+    · rw [if_pos e] at s2; obtain ⟨e1, _⟩ := e; subst e1; omega
+    · rw [if_neg e] at s2; omega
+  | moveAssign i j =>
+    have hij : i < arrs.length ∧ j < arrs.length := by simpa [wlegal] using hl
+    have s1 := sum_set arrs i (arrs.getD j {}) hij.1
+    have s2 := sum_set (arrs.set i (arrs.getD j {})) j (arrs.getD i {}) (by simp [hij.2])
+    rw [getD_set] at s2
+    refine ⟨rfl, ⟨_, wrep_set (L' := L) (t' := false) j _ _ (wrep_set (L' := L) (t' := t) i _ _ h (h.2 j)) (h.2 i), fun _ => rfl, fun ht => by cases ht⟩, ?_⟩
+    show L.ctor + (arrs.map Arr.size).sum + L.dtor = L.dtor + (((arrs.set i (arrs.getD j {})).set j (arrs.getD i {})).map Arr.size).sum + L.ctor
+    by_cases e : j = i ∧ i < arrs.length
+    · rw [if_pos e] at s2; obtain ⟨e1, _⟩ := e; subst e1; omega
+    · rw [if_neg e] at s2; omega
+  | copyAssign i j =>
+    have hij : i < arrs.length ∧ j < arrs.length := by simpa [wlegal] using hl
+    by_cases e : i = j
+    · subst e
+      refine WStepOK.of_eq (mx := mx) (w := ⟨arrs, L, t⟩) (vss := vss) (op := .copyAssign i i) ⟨arrs, L, false⟩ (by simp only [wstep, ↓reduceIte]) rfl ?_ ?_
+      · exact ⟨vss, ⟨hlen, h.2⟩, fun _ => (set_getD_self vss i []).symm, fun ht => by cases ht⟩
+      · show L.ctor + (arrs.map Arr.size).sum + L.dtor = L.dtor + (arrs.map Arr.size).sum + L.ctor; omega
+    · have ha : StepOK (arrs.getD i {}) L (assignRange mx (arrs.getD i {}) L (vss.getD j [])) (vss.getD j []) :=
+        assignRange_ok L _ (h.2 i)
+      have hsum := sum_set arrs i (assignRange mx (arrs.getD i {}) L (vss.getD j [])).arr hij.1
+      have hj : abs (arrs.getD j {}) = vss.getD j [] := abs_of_rep (h.2 j)
+      refine WStepOK.of_eq (mx := mx) (w := ⟨arrs, L, t⟩) (vss := vss) (op := .copyAssign i j) ⟨arrs.set i (assignRange mx (arrs.getD i {}) L (vss.getD j [])).arr,
+        (assignRange mx (arrs.getD i {}) L (vss.getD j [])).log, false⟩
+        (by simp only [wstep, World.get, e, ↓reduceIte, hj]) ha.viol ?_ ?_
+      · exact ⟨_, wrep_set i _ _ h ha.rep, fun _ => rfl, fun ht => by cases ht⟩
+      · have := ha.bal
+        show (assignRange mx (arrs.getD i {}) L (vss.getD j [])).log.ctor + (arrs.map Arr.size).sum + L.dtor
+          = (assignRange mx (arrs.getD i {}) L (vss.getD j [])).log.dtor + ((arrs.set i (assignRange mx (arrs.getD i {}) L (vss.getD j [])).arr).map Arr.size).sum + L.ctor
+        omega
+  | copyCtor i j =>
+    have hij : i < arrs.length ∧ j < arrs.length := by simpa [wlegal] using hl
+    by_cases e : i = j
+    · subst e
+      refine WStepOK.of_eq (mx := mx) (w := ⟨arrs, L, t⟩) (vss := vss) (op := .copyCtor i i) ⟨arrs, L, false⟩ (by simp only [wstep, ↓reduceIte]) rfl ?_ ?_
+      · exact ⟨vss, ⟨hlen, h.2⟩, fun _ => (set_getD_self vss i []).symm, fun ht => by cases ht⟩
+      · show L.ctor + (arrs.map Arr.size).sum + L.dtor = L.dtor + (arrs.map Arr.size).sum + L.ctor; omega
+    · have hd : StepOK (arrs.getD i {}) L (deallocate (arrs.getD i {}) L) [] := deallocate_ok L (h.2 i)
+      obtain ⟨c1, c2⟩ := constructFrom_ok (deallocate (arrs.getD i {}) L).log (vss.getD j [])
+      have hsum := sum_set arrs i (constructFrom (deallocate (arrs.getD i {}) L).log (vss.getD j [])).arr hij.1
+      have hj : abs (arrs.getD j {}) = vss.getD j [] := abs_of_rep (h.2 j)
+      refine WStepOK.of_eq (mx := mx) (w := ⟨arrs, L, t⟩) (vss := vss) (op := .copyCtor i j) ⟨arrs.set i (constructFrom (deallocate (arrs.getD i {}) L).log (vss.getD j [])).arr,
+        (constructFrom (deallocate (arrs.getD i {}) L).log (vss.getD j [])).log, false⟩
+        (by simp only [wstep, World.get, e, ↓reduceIte, hj]) (by show (constructFrom _ _).log.viol = _; rw [c2]; exact hd.viol) ?_ ?_
+      · exact ⟨_, wrep_set i _ _ h c1, fun _ => rfl, fun ht => by cases ht⟩
+      · have hb := hd.bal
+        have hz : (deallocate (arrs.getD i {}) L).arr.size = 0 := hd.rep.size
+        have hsz := c1.size
+        show (constructFrom (deallocate (arrs.getD i {}) L).log (vss.getD j [])).log.ctor + (arrs.map Arr.size).sum + L.dtor
+          = (constructFrom (deallocate (arrs.getD i {}) L).log (vss.getD j [])).log.dtor + ((arrs.set i (constructFrom (deallocate (arrs.getD i {}) L).log (vss.getD j [])).arr).map Arr.size).sum + L.ctor
+        rw [c2]; simp only [Log.adv_ctor, Log.adv_dtor]; omega
+  | moveCtor i j =>
+    have hij : i < arrs.length ∧ j < arrs.length := by simpa [wlegal] using hl
+    by_cases e : i = j
+    · subst e
+      refine WStepOK.of_eq (mx := mx) (w := ⟨arrs, L, t⟩) (vss := vss) (op := .moveCtor i i) ⟨arrs, L, false⟩ (by simp only [wstep, ↓reduceIte]) rfl ?_ ?_
+      · exact ⟨vss, ⟨hlen, h.2⟩, fun _ => by simp [wspec], fun ht => by cases ht⟩
+      · show L.ctor + (arrs.map Arr.size).sum + L.dtor = L.dtor + (arrs.map Arr.size).sum + L.ctor; omega
+    · have hd : StepOK (arrs.getD i {}) L (deallocate (arrs.getD i {}) L) [] := deallocate_ok L (h.2 i)
+      have hz : (deallocate (arrs.getD i {}) L).arr.size = 0 := hd.rep.size
+      have s1 := sum_set arrs i (arrs.getD j {}) hij.1
+      have s2 := sum_set (arrs.set i (arrs.getD j {})) j (deallocate (arrs.getD i {}) L).arr (by simp [hij.2])
+      rw [getD_set, if_neg (by intro hh; exact e hh.1.symm)] at s2
+      refine WStepOK.of_eq (mx := mx) (w := ⟨arrs, L, t⟩) (vss := vss) (op := .moveCtor i j) ⟨(arrs.set i (arrs.getD j {})).set j (deallocate (arrs.getD i {}) L).arr,
+        (deallocate (arrs.getD i {}) L).log, false⟩ (by simp only [wstep, World.get, e, ↓reduceIte]) hd.viol ?_ ?_
+      · exact ⟨_, wrep_set (t' := false) j _ _ (wrep_set (L' := L) (t' := t) i _ _ h (h.2 j)) hd.rep, fun _ => by simp [wspec, e], fun ht => by cases ht⟩
+      · have hb := hd.bal
+        show (deallocate (arrs.getD i {}) L).log.ctor + (arrs.map Arr.size).sum + L.dtor
+          = (deallocate (arrs.getD i {}) L).log.dtor + (((arrs.set i (arrs.getD j {})).set j (deallocate (arrs.getD i {}) L).arr).map Arr.size).sum + L.ctor
+        omega
+  | viewCopy i off j off2 len =>
+    have hij : i < arrs.length ∧ j < arrs.length ∧ i ≠ j ∧ off + len ≤ (arrs.getD i {}).size ∧ off2 + len ≤ (arrs.getD j {}).size := by
+      simpa [wlegal, World.get] using hl
+    have hsi : (arrs.getD i {}).size = (vss.getD i []).length := (h.2 i).size
+    have hsj : (arrs.getD j {}).size = (vss.getD j []).length := (h.2 j).size
+    have hlen' : (((vss.getD j []).drop off2).take len).length = len := by
+      simp only [List.length_take, List.length_drop]; omega
+    have hv : StepOK (arrs.getD i {}) L (viewAssign (arrs.getD i {}) L off (((vss.getD j []).drop off2).take len))
+        (splice (vss.getD i []) off (off + len) (((vss.getD j []).drop off2).take len)) := by
+      have := viewAssign_ok L off (((vss.getD j []).drop off2).take len) (h.2 i) (by rw [hlen']; omega)
+      rw [hlen'] at this; exact this
+    have hsum := sum_set arrs i (viewAssign (arrs.getD i {}) L off (((vss.getD j []).drop off2).take len)).arr hij.1
+    have hj : abs (arrs.getD j {}) = vss.getD j [] := abs_of_rep (h.2 j)
+    refine WStepOK.of_eq (mx := mx) (w := ⟨arrs, L, t⟩) (vss := vss) (op := .viewCopy i off j off2 len) ⟨arrs.set i (viewAssign (arrs.getD i {}) L off (((vss.getD j []).drop off2).take len)).arr,
+      (viewAssign (arrs.getD i {}) L off (((vss.getD j []).drop off2).take len)).log, false⟩
+      (by simp only [wstep, World.get, hj]) hv.viol ?_ ?_
+    · exact ⟨_, wrep_set i _ _ h hv.rep, fun _ => rfl, fun ht => by cases ht⟩
+    · have := hv.bal
+      show (viewAssign (arrs.getD i {}) L off (((vss.getD j []).drop off2).take len)).log.ctor + (arrs.map Arr.size).sum + L.dtor
+        = (viewAssign (arrs.getD i {}) L off (((vss.getD j []).drop off2).take len)).log.dtor + ((arrs.set i (viewAssign (arrs.getD i {}) L off (((vss.getD j []).drop off2).take len)).arr).map Arr.size).sum + L.ctor
+      omega
+
+/-- legality / undisturbed references along a world run -/
+def okWRun (mx : Nat) (w : World) : List WOp → Prop
+  | [] => True
+  | op :: ops => wlegal mx w op = true ∧ wrefOK w op = true ∧ okWRun mx (wstep mx w op) ops
+
+/-- **world_disciplined.**  For every sequence of operations over several arrays — including swap,
+copy/move assignment, copy/move construction and view-to-view assignment — no lifetime violation
+occurs, every array stays well formed, and the number of live elements equals the sum of the sizes
+(each element constructed and destroyed exactly once). -/
+theorem world_disciplined (mx : Nat) : ∀ (ops : List WOp) (w : World) (vss : List (List Elt)),
+    WRep w vss → okWRun mx w ops →
+    (wrun mx w ops).log.viol = w.log.viol ∧ (∃ vss', WRep (wrun mx w ops) vss') ∧
+    (wrun mx w ops).log.ctor + total w + w.log.dtor = (wrun mx w ops).log.dtor + total (wrun mx w ops) + w.log.ctor := by
+  intro ops
+  induction ops with
+  | nil => intro w vss h _; exact ⟨rfl, ⟨vss, h⟩, by simp [wrun]; omega⟩
+  | cons op ops ih =>
+    intro w vss h hok
+    obtain ⟨hl, hr, hrest⟩ := hok
+    obtain ⟨s1, ⟨vss', s2, _, _⟩, s3⟩ := wstep_ok mx w vss op h hl hr
+    obtain ⟨i1, i2, i3⟩ := ih (wstep mx w op) vss' s2 hrest
+    refine ⟨by show (wrun mx (wstep mx w op) ops).log.viol = _; rw [i1, s1], i2, ?_⟩
+    show (wrun mx (wstep mx w op) ops).log.ctor + total w + w.log.dtor
+      = (wrun mx (wstep mx w op) ops).log.dtor + total (wrun mx (wstep mx w op) ops) + w.log.ctor
+    omega
+
+/-- **world_refines.** each world operation is the corresponding operation on a family of `std::vector`s -/
+theorem world_refines (mx : Nat) (w : World) (vss : List (List Elt)) (op : WOp) (h : WRep w vss)
+    (hl : wlegal mx w op = true) (hr : wrefOK w op = true) (hnt : (wstep mx w op).thrown = false) (k : Nat) :
+    abs ((wstep mx w op).get k) = (wspec vss op).getD k [] := by
+  obtain ⟨vss', h1, h2, _⟩ := (wstep_ok mx w vss op h hl hr).rep
+  rw [← h2 hnt]; exact abs_of_rep (h1.2 k)
+
 /-! ## capacity -/
 
 /-- **capacity_growth** (growth formula): the new capacity holds the request, is at least the
@@ -303,5 +482,132 @@ theorem insertN_resize_alias_break_discipline :
 /-- non-vacuity of `refOK`: the same calls with a non-disturbed element are fine -/
 example : refOK roomy4 (.pushBack (.slot 0)) = true ∧ refOK roomy4 (.insert 3 (.slot 1)) = true ∧
     legal 1000 roomy4 (.insert 3 (.slot 1)) = true := by decide
+
+end C26
+
+namespace C26
+
+/-! ## pointer wrappers -/
+
+/-- heap object `x` is alive with value `u`, and `c ≥ 1` `CloneOnWritePtr`s share it -/
+structure Heap.Owns (h : Heap) (x : Nat) (u : Elt) (c : Nat) : Prop where
+  aligned : h.objs.length = h.cnts.length
+  live : h.objs[x]? = some (some u)
+  count : h.cnts[x]? = some c
+  pos : 0 < c
+
+theorem Heap.Owns.lt {h : Heap} {x : Nat} {u : Elt} {c : Nat} (ho : h.Owns x u c) : x < h.objs.length := by
+  rcases Nat.lt_or_ge x h.objs.length with h' | h'
+  · exact h'
+  · have := ho.live; rw [List.getElem?_eq_none h'] at this; cases this
+
+/-- **cow_shares_until_write.**  Copying a `CloneOnWritePtr` clones nothing (same object, use count
++1); the first write through the copy detaches it onto a fresh clone (count 1) carrying the new
+value while the original keeps object, value and its previous count; a further write through the
+now-unique copy clones nothing more. -/
+theorem cow_shares_until_write (h : Heap) (x : Nat) (u : Elt) (c : Nat) (ho : h.Owns x u c) (v v' : Elt) :
+    (Cow.copyCtor h (some x)).2 = some x ∧
+    (Cow.copyCtor h (some x)).1.objs = h.objs ∧
+    Cow.useCount (Cow.copyCtor h (some x)).1 (some x) = c + 1 ∧
+    (Cow.write (Cow.copyCtor h (some x)).1 (some x) v).2 = some h.objs.length ∧
+    Cow.get (Cow.write (Cow.copyCtor h (some x)).1 (some x) v).1 (some h.objs.length) = some v ∧
+    Cow.get (Cow.write (Cow.copyCtor h (some x)).1 (some x) v).1 (some x) = some u ∧
+    Cow.useCount (Cow.write (Cow.copyCtor h (some x)).1 (some x) v).1 (some x) = c ∧
+    Cow.useCount (Cow.write (Cow.copyCtor h (some x)).1 (some x) v).1 (some h.objs.length) = 1 ∧
+    (Cow.write (Cow.write (Cow.copyCtor h (some x)).1 (some x) v).1 (some h.objs.length) v').1.objs.length
+      = h.objs.length + 1 := by
+  have hx := ho.lt
+  have hxc : x < h.cnts.length := by rw [← ho.aligned]; exact hx
+  have hal := ho.aligned
+  have hcnt : h.cnts[x] = c := by
+    have := ho.count; rw [List.getElem?_eq_getElem hxc] at this; exact Option.some.inj this
+  have hobj : h.objs[x] = some u := by
+    have := ho.live; rw [List.getElem?_eq_getElem hx] at this; exact Option.some.inj this
+  have hpos := ho.pos
+  refine ⟨rfl, rfl, ?_, ?_⟩
+  · simp [Cow.copyCtor, Cow.shareWith, Cow.useCount, Heap.incr, Heap.cnt, hcnt, hxc]
+  · simp [Cow.copyCtor, Cow.shareWith, Cow.write, Cow.detach, Cow.get, Cow.useCount, Heap.incr, Heap.decr,
+      Heap.cnt, Heap.val, Heap.alloc, Heap.write, hcnt, hobj, hxc, hal, hpos, List.getElem?_append]
+
+/-- **cow_independent.**  After `q = p` (copy) a write through one of the two is invisible through
+the other: the writer holds a different object with the new value, the other still sees `u`. -/
+theorem cow_independent (h : Heap) (x : Nat) (u : Elt) (c : Nat) (ho : h.Owns x u c) (v : Elt) :
+    (Cow.write (Cow.copyCtor h (some x)).1 (some x) v).2 ≠ some x ∧
+    Cow.get (Cow.write (Cow.copyCtor h (some x)).1 (some x) v).1 (Cow.write (Cow.copyCtor h (some x)).1 (some x) v).2 = some v ∧
+    Cow.get (Cow.write (Cow.copyCtor h (some x)).1 (some x) v).1 (some x) = some u := by
+  obtain ⟨_, _, _, h4, h5, h6, _⟩ := cow_shares_until_write h x u c ho v v
+  refine ⟨?_, by rw [h4]; exact h5, h6⟩
+  rw [h4]; intro e; have := ho.lt; cases e; omega
+
+/-- `reset()` of one of several sharers keeps the object alive; `reset()` of the last one deletes it -/
+theorem cow_reset (h : Heap) (x : Nat) (u : Elt) (c : Nat) (ho : h.Owns x u c) :
+    (Cow.reset h (some x)).2 = none ∧ (Cow.reset h (some x)).1.doubleFree = h.doubleFree ∧
+    (1 < c → (Cow.reset h (some x)).1.val x = u ∧ (Cow.reset h (some x)).1.cnt x = c - 1) ∧
+    (c = 1 → (Cow.reset h (some x)).1.objs[x]? = some none) := by
+  have hx := ho.lt
+  have hxc : x < h.cnts.length := by rw [← ho.aligned]; exact hx
+  have hcnt : h.cnts[x] = c := by
+    have := ho.count; rw [List.getElem?_eq_getElem hxc] at this; exact Option.some.inj this
+  have hobj : h.objs[x] = some u := by
+    have := ho.live; rw [List.getElem?_eq_getElem hx] at this; exact Option.some.inj this
+  have hpos := ho.pos
+  by_cases h1 : c = 1
+  · subst h1
+    simp [Cow.reset, Heap.decr, Heap.cnt, Heap.free, Heap.val, hcnt, hobj, hxc, hx]
+  · have h2 : ¬ (c - 1 = 0) := by omega
+    simp [Cow.reset, Heap.decr, Heap.cnt, Heap.val, hcnt, hobj, hxc, hx, h1, h2]
+
+/-- **clone_ptr_deep.**  Copying a `ClonePtr` makes a new heap object with the same value; writes
+through either pointer are invisible through the other. -/
+theorem clone_ptr_deep (h : Heap) (x : Nat) (u v : Elt) (hl : h.objs[x]? = some (some u)) :
+    (Clone.copyCtor h (some x)).2 = some h.objs.length ∧ (Clone.copyCtor h (some x)).2 ≠ some x ∧
+    Clone.get (Clone.copyCtor h (some x)).1 (some h.objs.length) = some u ∧
+    Clone.get (Clone.copyCtor h (some x)).1 (some x) = some u ∧
+    Clone.get (Clone.write (Clone.copyCtor h (some x)).1 (some h.objs.length) v) (some x) = some u ∧
+    Clone.get (Clone.write (Clone.copyCtor h (some x)).1 (some h.objs.length) v) (some h.objs.length) = some v ∧
+    Clone.get (Clone.write (Clone.copyCtor h (some x)).1 (some x) v) (some h.objs.length) = some u ∧
+    Clone.get (Clone.write (Clone.copyCtor h (some x)).1 (some x) v) (some x) = some v := by
+  have hx : x < h.objs.length := by
+    rcases Nat.lt_or_ge x h.objs.length with h' | h'
+    · exact h'
+    · rw [List.getElem?_eq_none h'] at hl; cases hl
+  have hobj : h.objs[x] = some u := by
+    rw [List.getElem?_eq_getElem hx] at hl; exact Option.some.inj hl
+  refine ⟨rfl, ?_, ?_⟩
+  · show some h.objs.length ≠ some x
+    intro e; cases e; omega
+  · simp [Clone.copyCtor, Clone.cloneOrNull, Clone.make, Clone.get, Clone.write, Heap.alloc, Heap.val, Heap.write,
+      hobj, hx, List.getElem?_append]
+
+/-- **reset_on_copy.**  `ResetOnCopy<T>` never carries its value through a copy (construction or
+assignment give `T()` whatever the source holds); moves and plain assignment of a `T` do carry it. -/
+theorem reset_on_copy (dst src src' v : Elt) :
+    ResetOnCopy.copyCtor src = defaultVal ∧ ResetOnCopy.copyCtor src = ResetOnCopy.copyCtor src' ∧
+    ResetOnCopy.copyAssign dst src = defaultVal ∧ ResetOnCopy.moveCtor src = src ∧
+    ResetOnCopy.moveAssign dst src = src ∧ ResetOnCopy.assignValue dst v = v :=
+  ⟨rfl, rfl, rfl, rfl, rfl, rfl⟩
+
+/-- **reinit_on_copy.**  `ReinitOnCopy<T>`: a copy-constructed object holds the source's *reinit*
+value (not its current value) and inherits that reinit value; copy assignment restores the
+destination's own reinit value; neither depends on the source's current value. -/
+theorem reinit_on_copy (dst src : Reinit) (v : Elt) :
+    (Reinit.copyCtor src).value = src.reinit ∧ (Reinit.copyCtor src).reinit = src.reinit ∧
+    Reinit.copyCtor { src with value := v } = Reinit.copyCtor src ∧
+    (Reinit.copyAssign dst src).value = dst.reinit ∧ (Reinit.copyAssign dst src).reinit = dst.reinit ∧
+    Reinit.copyAssign dst { src with value := v } = Reinit.copyAssign dst src ∧
+    (Reinit.moveAssign dst src).value = src.value ∧ (Reinit.moveAssign dst src).reinit = dst.reinit ∧
+    Reinit.moveCtor src = src :=
+  ⟨rfl, rfl, rfl, rfl, rfl, rfl, rfl, rfl, rfl⟩
+
+/-- **reference_ptr_shallow.**  `ReferencePtr<T>` is a bare (non-owning) pointer: copies are null
+whatever the source points at, moves transfer the pointer and null the source. -/
+theorem reference_ptr_shallow (dst src src' : Ptr) :
+    RefPtr.copyCtor src = none ∧ RefPtr.copyCtor src = RefPtr.copyCtor src' ∧
+    RefPtr.copyAssign dst src = none ∧
+    RefPtr.moveCtor src = (src, none) ∧ RefPtr.moveAssign dst src = (src, none) :=
+  ⟨rfl, rfl, rfl, rfl, rfl⟩
+
+/-- non-vacuity of `Heap.Owns`: a heap built by `Cow.make` -/
+example : (Cow.make {} 5).1.Owns 0 5 1 := ⟨rfl, rfl, rfl, by decide⟩
 
 end C26
